@@ -140,6 +140,82 @@ impl<'a> LinkBuilder<'a> {
     }
 }
 
+/// verification hook: the two halves of [`LinkBuilder::build`], so that a single-threaded
+/// driver can run the router between sending `Event::Connect` and reading its reply.
+#[cfg(feature = "verif-hooks")]
+pub struct DeferredLink {
+    router_tx: Sender<(ConnectionId, Event)>,
+    link_rx: Receiver<()>,
+    outgoing_data_buffer: Arc<Mutex<VecDeque<Notification>>>,
+    incoming_data_buffer: Arc<Mutex<VecDeque<Packet>>>,
+}
+
+#[cfg(feature = "verif-hooks")]
+impl LinkBuilder<'_> {
+    /// First half of `build`: registers with the router without waiting for its reply
+    pub fn build_deferred(self) -> Result<DeferredLink, LinkError> {
+        let mut connection = Connection::new(
+            self.tenant_id,
+            self.client_id.to_owned(),
+            self.clean_session,
+            self.dynamic_filters,
+        );
+
+        connection
+            .last_will(self.last_will, self.last_will_properties)
+            .topic_alias_max(self.topic_alias_max);
+        let incoming = Incoming::new(connection.client_id.to_owned());
+        let (outgoing, link_rx) = Outgoing::new(connection.client_id.to_owned());
+        let outgoing_data_buffer = outgoing.buffer();
+        let incoming_data_buffer = incoming.buffer();
+
+        let event = Event::Connect {
+            connection,
+            incoming,
+            outgoing,
+        };
+
+        self.router_tx.send((0, event))?;
+
+        Ok(DeferredLink {
+            router_tx: self.router_tx,
+            link_rx,
+            outgoing_data_buffer,
+            incoming_data_buffer,
+        })
+    }
+}
+
+#[cfg(feature = "verif-hooks")]
+impl DeferredLink {
+    /// Second half of `build`. Fails with the deferred link handed back when the router has not
+    /// replied yet (retry later), or with `None` when the router rejected the connection.
+    #[allow(clippy::type_complexity, clippy::result_large_err)]
+    pub fn finish(
+        self,
+    ) -> Result<(LinkTx, LinkRx, Notification), (Option<DeferredLink>, LinkError)> {
+        match self.link_rx.try_recv() {
+            Ok(()) => {}
+            Err(flume::TryRecvError::Empty) => {
+                return Err((Some(self), LinkError::Recv(RecvError::Disconnected)))
+            }
+            Err(flume::TryRecvError::Disconnected) => {
+                return Err((None, LinkError::Recv(RecvError::Disconnected)))
+            }
+        }
+        let notification = self.outgoing_data_buffer.lock().pop_front().unwrap();
+
+        let id = match notification {
+            Notification::DeviceAck(Ack::ConnAck(id, ..)) => id,
+            _message => return Err((None, LinkError::NotConnectionAck)),
+        };
+
+        let tx = LinkTx::new(id, self.router_tx.clone(), self.incoming_data_buffer);
+        let rx = LinkRx::new(id, self.router_tx, self.link_rx, self.outgoing_data_buffer);
+        Ok((tx, rx, notification))
+    }
+}
+
 pub struct LinkTx {
     pub(crate) connection_id: ConnectionId,
     router_tx: Sender<(ConnectionId, Event)>,
@@ -209,6 +285,20 @@ impl LinkTx {
             .await?;
 
         Ok(())
+    }
+
+    /// verification hook: non-blocking, non-async form of `notify`
+    #[cfg(feature = "verif-hooks")]
+    pub fn verif_notify(&mut self) -> Result<(), LinkError> {
+        self.router_tx
+            .try_send((self.connection_id, Event::DeviceData))?;
+        Ok(())
+    }
+
+    /// verification hook: id the router assigned to this link
+    #[cfg(feature = "verif-hooks")]
+    pub fn verif_id(&self) -> ConnectionId {
+        self.connection_id
     }
 
     /// Sends a MQTT Publish to the router
@@ -400,6 +490,29 @@ impl LinkRx {
         self.router_rx.recv_async().await?;
         mem::swap(&mut *self.send_buffer.lock(), notifications);
         Ok(())
+    }
+
+    /// verification hook: what `exchange` does, without waiting for the signal. Returns the
+    /// number of pending signals consumed (at most one) and swaps the buffers only if there was one.
+    #[cfg(feature = "verif-hooks")]
+    pub fn verif_try_exchange(&mut self, notifications: &mut VecDeque<Notification>) -> bool {
+        if self.router_rx.try_recv().is_err() {
+            return false;
+        }
+        mem::swap(&mut *self.send_buffer.lock(), notifications);
+        true
+    }
+
+    /// verification hook: number of router signals not yet consumed by this link
+    #[cfg(feature = "verif-hooks")]
+    pub fn verif_pending_signals(&self) -> usize {
+        self.router_rx.len()
+    }
+
+    /// verification hook: true once the router dropped its side of this link
+    #[cfg(feature = "verif-hooks")]
+    pub fn verif_router_dropped(&self) -> bool {
+        self.router_rx.is_disconnected()
     }
 
     pub fn ready(&self) -> Result<(), LinkError> {
